@@ -264,7 +264,7 @@ def f_nested_type(g):
     g.decls.append("func (f %sfn) show() int { return f() }\n" % P)
     g.decls.append("func %swrapShow(f func() int) %sS { return %sfn(f) }\n" % (P, P, P))
     # generic function with a local type depending on the nest's type parameter, and a method-less local generic use
-    g.decls.append("func %sgen[T any](x T, n int) int {\n\ttype cell struct {\n\t\tv T\n\t\tn int\n\t}\n\tcs := []cell{{x, n}, {x, n + 1}}\n\treturn cs[1].n + len(cs)\n}\n" % P)
+    g.decls.append("func %sgen[T any](x T, n int) int {\n\ttype cell struct {\n\t\tv T\n\t\tn int\n\t}\n\tc, d := cell{x, n}, &cell{x, n + 1}\n\tvar e interface{} = c\n\t_, ok := e.(cell)\n\tif ok {\n\t\treturn c.n + d.n\n\t}\n\treturn -1\n}\n" % P)
     g.decls.append("func %sdeadNest() int {\n\ttype local struct{ a, b int }\n\treturn local{1, 2}.b\n}\n" % P)
     g.main.append("println(\"%s\", %smk1(4).show(), %sgen(\"s\", 1), %sgen(2.5, 10), %sgen([]int{1}, 20))" % (P, P, P, P, P))
     if rng.random() < 0.6:
